@@ -118,17 +118,16 @@ Theorem C19_tight_gated : forall fx reg en vo root path t,
   tight_target fx reg en vo root path = Some t -> reg = true /\ en = true /\ vo = false.
 Proof. exact tight_gated. Qed.
 
-(* C19_tight_confined, full statement:
-     forall reg en vo root path t, tight_target false reg en vo root path = Some t ->
-       exists rel, t = root ++ rel /\ stays_below_root rel = true
-   is FALSE for the unchanged tree (F19): *)
-Theorem C19_tight_confined_refuted : exists root path t rel,
-  tight_target false true true false root path = Some t /\ t = root ++ rel /\ stays_below_root rel = false.
-Proof. exact tight_confined_refuted. Qed.
-
-(* it holds for the control flow with notes/fix_C19_2.diff (names with a ".." component or without
-   leading '/' refused) *)
-Theorem C19_tight_confined_fixed : forall reg en vo root path t,
+(* C19_tight_confined.  True for the tree since fix commit 9f956a4 ([fix_f19 = true]): every path a
+   list / create-directory request of the extension operates on is root ++ "/" ++ rel where rel never
+   climbs above the root *)
+Theorem C19_tight_confined : forall reg en vo root path t,
   tight_target true reg en vo root path = Some t ->
   exists rel, t = root ++ 47 :: rel /\ stays_below_root (47 :: rel) = true.
 Proof. exact tight_confined_fixed. Qed.
+
+(* the flow before that commit accepted "/../x" (and "x": a sibling of the root) - F19; regression
+   witness corpus/C19/f19_tight_dotdot.script *)
+Theorem C19_tight_confined_prefix_refuted : exists root path t rel,
+  tight_target false true true false root path = Some t /\ t = root ++ rel /\ stays_below_root rel = false.
+Proof. exact tight_confined_refuted. Qed.
